@@ -577,6 +577,14 @@ _dispatch_event_merge_fd(dispatch_muxnote_t dmn, uint32_t events)
 	dispatch_unote_linkage_t dul, dul_next;
 	uintptr_t data;
 
+	// EPOLLERR is unmaskable like EPOLLHUP, and it is all the write end of a
+	// full pipe reports once the read end is closed: wake up the readers and
+	// writers so that their next read(2)/write(2) finds the error, instead of
+	// re-arming the descriptor (and spinning) forever
+	if ((events & EPOLLERR) && !(events & EPOLLHUP)) {
+		events |= (EPOLLIN | EPOLLOUT);
+	}
+
 	dmn->dmn_disarmed_events |= (events & (EPOLLIN | EPOLLOUT));
 
 	if (events & EPOLLIN) {
